@@ -80,6 +80,11 @@ theorem step_noWrite {s s' : State} {a : Act} {as : List Act} (memsA : List Run)
         have hr' : r ∈ s.mems.drop snap.length := hr
         exact hsub r (List.mem_of_mem_drop hr')
       · cases hstep
+  | flushAbort =>
+    simp only [step] at hstep
+    split at hstep
+    · cases hstep
+    · cases hstep; exact ⟨by simpa [noWrite] using hnw, rfl, hsub⟩
   | compact rm lvl add =>
     simp only [step] at hstep
     split at hstep
